@@ -31,6 +31,9 @@ func vc02Corpus() []vvttLine {
 		{"a &amp; b &lt; c", "", []vvttRun{{text: "a & b < c"}}},
 		{"one <00:00:01.500>two", "", []vvttRun{{text: "one "}, {text: "two", startMs: 1500}}},
 		{"<lang en>x</lang>", "", []vvttRun{{text: "x", tags: []WebVTTTag{{Name: "lang", Annotation: "en"}}}}},
+		// an inline timestamp inside a tag stack: the text before it is under the same tags as the text after it
+		{"<c.loud><i>before <00:00:05.000>after</i></c>", "", []vvttRun{{text: "before ", tags: []WebVTTTag{{Name: "c", Classes: []string{"loud"}}, i}},
+			{text: "after", tags: []WebVTTTag{{Name: "c", Classes: []string{"loud"}}, i}, startMs: 5000}}},
 	}
 }
 
